@@ -521,7 +521,7 @@ func runC04(ctx Ctx) int {
 			}
 		}
 	}
-	deadline := devx.Deadline(map[string]time.Duration{"quick": 5 * time.Minute, "thorough": 30 * time.Minute}[run.Tier])
+	deadline := devx.Deadline(map[string]time.Duration{"quick": 5 * time.Minute, "thorough": 15 * time.Minute}[run.Tier])
 	var disagreements int64
 	_, complete := parallel(len(cases), deadline, func(i int) {
 		c := cases[i]
